@@ -1,6 +1,7 @@
 """C05 — tag syntax: attributes round-trip, look-alikes are ignored.
 
-Encoded (real MIR): <WinnowBlockTagParser as BlockTagParser>::next (the candidate '<' scan with
+Encoded (real MIR): parse_blocks_from_comments / PartialBlocksIterator::next / BlockStart::new (pipeline
+family: the grammar's output reaches Block.attributes), <WinnowBlockTagParser as BlockTagParser>::next (the candidate '<' scan with
 fall-through, cursor and offset arithmetic), parse_start_tag, parse_end_tag, parse_attributes (+ its
 fold closure), parse_attribute_name / parse_attribute_value (+ their character-class and map
 closures).  The generic winnow combinators the grammar is written with are models
@@ -178,6 +179,101 @@ def seq_eq(a, b):
     return z3.Not(seq_ne(a, b))
 
 
+def attr_obligations(I, viol, ents, exp, where):
+    """The reported map `ents` [(key bytes, value bytes)] against the written attribute list `exp`."""
+    for j, (nm, _v) in enumerate(exp):
+        # the value that must be reported for name j: that of its last occurrence
+        present = zor([seq_eq(k, nm) for k, _ in ents])
+        viol(I, z3.Not(present), 'attribute-missing', 'attribute %d of the %s is not in the map' % (j, where))
+        for j2 in range(j, len(exp)):
+            is_last = zand([seq_eq(exp[j2][0], nm)] + [seq_ne(exp[j3][0], nm) for j3 in range(j2 + 1, len(exp))])
+            for (k, v) in ents:
+                viol(I, z3.And(is_last, seq_eq(k, nm), seq_ne(v, exp[j2][1])), 'attribute-value-wrong',
+                     'attribute %d of the %s: reported value differs from the written one (last duplicate wins)' % (j, where))
+    for (k, _v) in ents:
+        viol(I, zand([seq_ne(k, nm) for nm, _ in exp]), 'extra-attribute', '%s: a key that was not written' % where)
+
+
+def run_pipeline(task):
+    """Several comments, each laid out from items, through parse_blocks_from_comments: the blocks
+    carry exactly the written attributes (what `blockwatch list` prints)."""
+    comments_items, want_sample = task
+    from mirsym.models import ListIter
+    prog = driver.load_program()
+    stats = PathStats()
+    f = prog.find_fn('parse_blocks_from_comments')
+    out = dict(violations=[], samples=[], obligations=0, cover={}, panic_paths=0)
+    holder = {}
+    roles = set()
+
+    def run_path(I):
+        cs = []
+        texts = []
+        evs = []
+        line = 1
+        off = 0
+        for ci, items in enumerate(comments_items):
+            text, events, decoys, _syms = build(I, (('T', '  '),) + tuple(items) + (('T', '  '),))
+            texts.append(text)
+            evs.append(events)
+            # geometry: each comment starts at column 1 of its own line; newlines inside are symbolic
+            # whitespace bytes, so the end position is left to the crate (it is not read by the pairing)
+            cs.append(mk_struct(
+                prog, 'Comment',
+                position_range=Struct('Range', (position(prog, line, 1), position(prog, line + 40, 1))),
+                source_range=Struct('Range', (off, off + len(text))),
+                comment_text=SString(text, I.new_alloc())))
+            line += 100
+            off += len(text) + 10
+        holder.update(texts=texts, evs=evs)
+        return I.call_fn(f, [ListIter(cs)])
+
+    def viol(I, cond, role, summary):
+        out['obligations'] += 1
+        if role in roles:
+            return
+        if isinstance(cond, bool):
+            cond = z3.BoolVal(cond)
+        if I.check(cond):
+            roles.add(role)
+            m = I.solver.model()
+            out['violations'].append(dict(role=role, summary=summary, items=repr(comments_items), pipeline=True,
+                                          texts=[model_bytes(m, t).decode('latin1') for t in holder['texts']]))
+
+    for I, pk, val in explore(prog, models.M, run_path, stats=stats, max_paths=60000):
+        if pk == 'panic':
+            out['panic_paths'] += 1
+            viol(I, True, 'panic', 'panic: %s' % val.msg[:120])
+            continue
+        # expected blocks: stack pairing of the written events, in order of their start tags
+        stack, exp_blocks = [], []
+        for ci, events in enumerate(holder['evs']):
+            for e in events:
+                if e[0] == 'S':
+                    stack.append((ci, e))
+                else:
+                    exp_blocks.append(stack.pop())
+        exp_blocks.sort(key=lambda x: (x[0], x[1][1]))
+        if val.v != 0:
+            viol(I, True, 'written-tags-not-paired', 'balanced written tags, but the comments were rejected')
+            continue
+        blocks = list(val.f[0].items)
+        if len(blocks) != len(exp_blocks):
+            viol(I, True, 'wrong-number-of-blocks', '%d blocks from %d written tag pairs' % (len(blocks), len(exp_blocks)))
+            continue
+        for bi, (b, (ci, e)) in enumerate(zip(blocks, exp_blocks)):
+            attrs = get_field(prog, b, 'Block', 'attributes')
+            ents = [(x.f[0].b, x.f[1].b) for x in attrs.entries]
+            attr_obligations(I, viol, ents, e[3], 'block %d' % bi)
+        out['cover']['pipeline'] = out['cover'].get('pipeline', 0) + 1
+        if want_sample and not out['samples']:
+            m = I.ensure_model()
+            out['samples'].append(dict(items=repr(comments_items), pipeline=True,
+                                       texts=[model_bytes(m, t).decode('latin1') for t in holder['texts']]))
+    out.update(Agg(PROP, 'x').stats_from(stats))
+    return out
+
+
 def run_task(task):
     items, want_sample = task
     prog = driver.load_program()
@@ -275,17 +371,7 @@ def run_task(task):
                 amap = ev.f[1]
                 ents = [(x.f[0].b, x.f[1].b) for x in amap.entries]
                 exp = e[3]
-                for j, (nm, _v) in enumerate(exp):
-                    # the value that must be reported for name j: that of its last occurrence
-                    present = zor([seq_eq(k, nm) for k, _ in ents])
-                    viol(I, z3.Not(present), 'attribute-missing', 'attribute %d of the tag at %d is not in the map' % (j, a))
-                    for j2 in range(j, len(exp)):
-                        is_last = zand([seq_eq(exp[j2][0], nm)] + [seq_ne(exp[j3][0], nm) for j3 in range(j2 + 1, len(exp))])
-                        for (k, v) in ents:
-                            viol(I, z3.And(is_last, seq_eq(k, nm), seq_ne(v, exp[j2][1])), 'attribute-value-wrong',
-                                 'attribute %d of the tag at %d: reported value differs from the written one (last duplicate wins)' % (j, a))
-                for (k, _v) in ents:
-                    viol(I, zand([seq_ne(k, nm) for nm, _ in exp]), 'extra-attribute', 'tag at %d: a key that was not written' % a)
+                attr_obligations(I, viol, ents, exp, 'tag at %d' % a)
                 out['cover']['start tag'] = out['cover'].get('start tag', 0) + 1
                 if len(exp) >= 2:
                     out['cover']['two or more attributes'] = 1
@@ -386,38 +472,42 @@ def ref_scan(text):
         i += 1
 
 
-def materialize(text):
-    """A .js file: balancing start tags, the text inside one /* */ comment, balancing end tags."""
-    evs = ref_scan(text)
+def expected_list(texts):
+    """A .js file with one /* */ comment per text (balancing tags added in comments of their own)
+    and the (line, column, attributes) list the property demands for it."""
+    if isinstance(texts, bytes):
+        texts = [texts]
+    evs_per = [ref_scan(t) for t in texts]
     depth = low = 0
-    for e in evs:
-        depth += 1 if e[0] == 'S' else -1
-        low = min(low, depth)
-    pre = b''.join(b'/* <block name="pre%d"> */\n' % i for i in range(-low))
-    post = b'\n' + b''.join(b'/* </block> */\n' for _ in range(depth - low))
-    return pre + b'/*' + text + b'*/' + post, len(pre) + 2, -low
-
-
-def expected_list(text):
-    src, base, npre = materialize(text)
-    evs = ref_scan(text)
+    for evs in evs_per:
+        for e in evs:
+            depth += 1 if e[0] == 'S' else -1
+            low = min(low, depth)
+    npre = -low
+    src = b''.join(b'/* <block name="pre%d"> */\n' % i for i in range(npre))
+    bases = []
+    for i, t in enumerate(texts):
+        bases.append(len(src) + 2)
+        src += b'/*' + t + b'*/\ncode%d();\n' % i
+    src += b''.join(b'/* </block> */\n' for _ in range(depth - low))
     stack = [('pre', i) for i in range(npre)]
     blocks = []
-    for e in evs:
-        if e[0] == 'S':
-            stack.append(e)
-        else:
-            blocks.append(stack.pop())
+    for base, evs in zip(bases, evs_per):
+        for e in evs:
+            if e[0] == 'S':
+                stack.append((base, e))
+            else:
+                blocks.append(stack.pop())
     blocks.extend(stack)
     out = []
     for b in blocks:
         if b[0] == 'pre':
             out.append((b[1] + 1, 4, {'name': 'pre%d' % b[1]}))
             continue
-        off = base + b[1]
+        off = b[0] + b[1][1]
         line = src.count(b'\n', 0, off) + 1
         col = off - (src.rfind(b'\n', 0, off) + 1) + 1
-        out.append((line, col, b[3]))
+        out.append((line, col, b[1][3]))
     return src, sorted(out, key=lambda x: (x[0], x[1]))
 
 
@@ -441,9 +531,9 @@ def observe(binary, src):
 
 def confirm(binary, v, idx):
     v['confirmed'] = False
-    text = v['text'].encode('latin1')
+    texts = [t.encode('latin1')[2:-2] for t in v['texts']] if v.get('pipeline') else [v['text'].encode('latin1')]
     try:
-        src, want = expected_list(text)
+        src, want = expected_list(texts)
     except UnicodeDecodeError:
         return v
     obs = observe(binary, src)
@@ -490,7 +580,7 @@ def tasks_for(tier, rnd):
         T.append((('T', 'π '), ('S', (A(1, nm, 'bare'),), 0), ('T', ' ✓')))
     # three attributes with duplicates possible, the last one wins
     for ks in (('dq', 'unq', 'sq'), ('bare', 'dq', 'bare'), ('unq', 'unq', 'unq'), ('sq', 'bare', 'dq')):
-        T.append((('S', tuple(A(1, 'n', k, 0, 0, vals[k]) for k in ks), 0),))
+        T.append((('S', tuple(A(1, 'n', k, 0, 0, vals[k] if (k != 'unq' or tier == 'thorough') else 'a') for k in ks), 0),))
     # end tags with inner whitespace
     for w in itertools.product((0, 1, 2), repeat=3):
         if sum(w) <= 3:
@@ -498,7 +588,8 @@ def tasks_for(tier, rnd):
     # sequences: tags back to back, decoys right before / after a tag
     T.append((('S', (A(1, 'n', 'dq', 0, 0, 'v'),), 0), ('S', (A(1, 'n', 'bare'),), 0), ('E', 0, 1, 0), ('E', 1, 0, 0)))
     T.append((('T', '<b>'), ('S', (A(1, 'nn', 'unq', 0, 0, 'nn'),), 0), ('T', '</b>'), ('E', 0, 0, 0)))
-    T.append((('N', 3), ('S', (A(1, 'a', 'sq', 0, 0, 'v'),), 0), ('N', 3), ('E', 0, 0, 1), ('N', 2)))
+    nz = (3, 3, 2) if tier == 'thorough' else (2, 2, 1)
+    T.append((('N', nz[0]), ('S', (A(1, 'a', 'sq', 0, 0, 'v'),), 0), ('N', nz[1]), ('E', 0, 0, 1), ('N', nz[2])))
     # look-alike families
     for tail in (0, 1, 3):
         T.append((('L1', tail),))
@@ -535,6 +626,26 @@ def tasks_for(tier, rnd):
     return T
 
 
+def pipeline_tasks(tier):
+    """Comments (one item list each) through the block pairing: the grammar's output reaches Block.attributes."""
+    P = []
+    S1 = ('S', (A(1, 'n', 'dq', 0, 0, 'v'),), 0)
+    for w in ((0, 0, 0), (1, 0, 0), (0, 1, 0), (0, 0, 1), (1, 1, 1)):
+        P.append(((S1,), (('E',) + w,)))                       # end tag alone in its comment
+        P.append(((S1, ('N', 1)), (('N', 1), ('E',) + w, ('N', 1))))
+    for k in ('bare', 'unq', 'dq', 'sq'):
+        v = {'bare': '', 'unq': 'n' if tier == 'thorough' else 'a', 'dq': 'v>', 'sq': 'v<'}[k]
+        P.append(((('S', (A(1, 'n', k, 1, 1, v), A(1, 'n', 'bare')), 1),), (('E', 0, 0, 0),)))
+        P.append(((('N', 2 if tier == 'thorough' else 1), ('S', (A(2, 'a', k, 0, 0, v),), 0), ('E', 0, 1, 0), ('S', (A(1, 'n', k, 0, 0, v),), 0)), (('L1', 1),), (('E', 0, 0, 0),)))
+    P.append(((('S', (), 0),), (('L3', b'>'),), (('E', 0, 0, 0),)))
+    P.append(((('L2', 0, b'>'), ('S', (A(1, 'é', 'dq', 0, 0, 'ü'),), 0)), (('L6', 0), ('E', 1, 0, 1))))
+    if tier == 'thorough':
+        for w in itertools.product((0, 1, 2), repeat=3):
+            if sum(w) in (2, 3, 4):
+                P.append(((S1,), (('T', 'x'), ('E',) + w)))
+    return P
+
+
 BOUNDS = {'quick': dict(validate=40), 'thorough': dict(validate=150)}
 
 
@@ -544,6 +655,8 @@ def main(tier):
     rnd = random.Random(seed())
     tasks = tasks_for(tier, rnd)
     results = pmap(run_task, [(t, True) for t in tasks], chunksize=2)
+    ptasks = pipeline_tasks(tier)
+    results += pmap(run_pipeline, [(t, True) for t in ptasks])
     for r in results:
         agg.add(r)
     by_role = {}
@@ -562,7 +675,7 @@ def main(tier):
     samples = [s for r in results for s in r.get('samples', [])]
     rnd.shuffle(samples)
     for s in samples[:BOUNDS[tier]['validate']]:
-        text = s['text'].encode('latin1')
+        text = [t.encode('latin1')[2:-2] for t in s['texts']] if s.get('pipeline') else [s['text'].encode('latin1')]
         src, want = expected_list(text)
         obs = observe(binary, src)
         if obs.get('blocks') == [(l, c, a) for l, c, a in want]:
@@ -571,7 +684,7 @@ def main(tier):
             msg = 'real %s vs reference %s on %r' % (obs, want, text)
             agg.validation_failures.append(msg)
             agg.engine_errors.append({'engine_error': 'translator validation: ' + msg})
-    bounds = dict(tasks=len(tasks), attributes_per_tag='0..3 (quick), 0..6 (thorough)',
+    bounds = dict(tasks=len(tasks), pipeline_tasks=len(ptasks), attributes_per_tag='0..3 (quick), 0..6 (thorough)',
                   symbolic_bytes='names 1-3 bytes over [aZ7-_] / [bQ3] plus literal non-ASCII letters; quoted values 0-5 bytes over [ ><=/"\'a-_.] minus the enclosing quote plus literal non-ASCII; whitespace runs 0-3 bytes over space, tab, LF, CR; noise 0-3 bytes over [<b/ >x"=LF]',
                   tags_per_text='1..4', look_alike_families=['<block + non-space non-> byte', 'one letter of block replaced (case, other)', 'byte between < and block', 'quote never closed in the comment', '</block + non-space non-> byte'])
     return finish(
@@ -581,7 +694,7 @@ def main(tier):
                      'the position of a tag in the file (line, column) and what tree-sitter hands over as comment text are decided in C03/C04',
                      'noise is at most 3 symbolic bytes per gap (too short to spell a tag by itself); an unclosed-quote look-alike is the last item of its comment and the bytes after it contain neither that quote nor "<"'],
         stubs=['winnow combinators (models)', 'hashbrown HashMap (association list with symbolic key equality)'],
-        must_cover=['start tag', 'end tag', 'two or more attributes', 'possible duplicate names', 'look-alike ignored'],
+        must_cover=['start tag', 'end tag', 'two or more attributes', 'possible duplicate names', 'look-alike ignored', 'pipeline'],
         explanation='every event returned by WinnowBlockTagParser::next compared with the attribute AST the text was printed from; PC∧(reported≠written) asked per attribute, value, key and tag range on every path')
 
 
